@@ -710,8 +710,21 @@ func (d *hoDriver) mutatedProcess(h int64, round, proposer int, now time.Time, v
 			return nil
 		}
 		p := clone()
-		p.Transactions = p.Transactions[1:]
-		p.ExtraData[0]--
+		n := int(pl.ExtraData[0])
+		switch r.Intn(4) {
+		case 0: // the first system transaction is missing
+			p.Transactions = p.Transactions[1:]
+			p.ExtraData[0]--
+		case 1: // the last one is missing (the bridge's are all there, the locking module's are short)
+			p.Transactions = append(append([][]byte{}, p.Transactions[:n-1]...), p.Transactions[n:]...)
+			p.ExtraData[0]--
+		case 2: // the whole transaction list stops after k < n system transactions, and the count says so
+			k := r.Intn(n)
+			p.Transactions = p.Transactions[:k]
+			p.ExtraData[0] = byte(k)
+		default: // ... and the count does not
+			p.Transactions = p.Transactions[:r.Intn(n)]
+		}
 		rehash(p)
 		txs = append([][]byte{blockTx(p, proposer, sim.SignOpts{})}, rest...)
 	case "sysAltered":
